@@ -32,11 +32,20 @@ fn copy_xattr(infd: &File, outfd: &File) -> Result<()> {
     // FIXME: Flag for xattr.
     if XATTR_SUPPORTED {
         debug!("Starting xattr copy...");
+        // One attribute that cannot be set (e.g. security.* without
+        // privilege) must not cost the remaining ones; report the
+        // first failure once all have been tried.
+        let mut first_err = None;
         for attr in infd.list_xattr()? {
             if let Some(val) = infd.get_xattr(&attr)? {
                 debug!("Copy xattr {:?}", attr);
-                outfd.set_xattr(attr, val.as_slice())?;
+                if let Err(e) = outfd.set_xattr(attr, val.as_slice()) {
+                    first_err.get_or_insert(e);
+                }
             }
+        }
+        if let Some(e) = first_err {
+            return Err(e.into());
         }
     }
     Ok(())
